@@ -140,7 +140,14 @@ func c19CtxReduce(x Operand, dst DecJ, cc CtxCase) (cls string, msg string) {
 	if pan != "" {
 		return "panic", "panic: " + pan
 	}
-	want := ref.Round(ref.FromVal(x.V), cc.R)
+	// zeros removed = trailing zeros of the operand's coefficient (n1) plus trailing zeros of the
+	// coefficient left by rounding the stripped operand (n2); the value is strip(round(x)).
+	n1 := trailingZeros(x.V.Coef)
+	xs := x.V
+	if n1 > 0 {
+		xs = ref.Val{Neg: x.V.Neg, Coef: new(big.Int).Quo(x.V.Coef, ref.Pow10(n1)), Exp: x.V.Exp + n1}
+	}
+	want := ref.Round(ref.FromVal(xs), cc.R)
 	cls = "ctxreduce"
 	if want.Flags&ref.Inexact != 0 {
 		cls += "-inexact"
@@ -183,12 +190,12 @@ func c19CtxReduce(x Operand, dst DecJ, cc CtxCase) (cls string, msg string) {
 	if trailingZeros(got.Coef) != 0 {
 		return cls, fmt.Sprintf("result %s still has a trailing zero", got)
 	}
-	tz := trailingZeros(want.V.Coef)
-	if tz > 0 {
+	n2 := trailingZeros(want.V.Coef)
+	if n1+n2 > 0 {
 		cls += "-strips"
 	}
-	if n != tz || got.Exp != want.V.Exp+tz {
-		return cls, fmt.Sprintf("count = %d, exponent %d; want count %d (zeros of the rounded coefficient %s), exponent %d", n, got.Exp, tz, want.V.Coef, want.V.Exp+tz)
+	if n != n1+n2 || got.Exp != want.V.Exp+n2 {
+		return cls, fmt.Sprintf("count = %d, exponent %d; want count %d (%d zeros of the operand + %d of the rounded coefficient %s), exponent %d", n, got.Exp, n1+n2, n1, n2, want.V.Coef, want.V.Exp+n2)
 	}
 	return cls, ""
 }
@@ -393,6 +400,6 @@ func init() {
 		},
 		Run:    c19Run,
 		Replay: c19Replay,
-		Assumptions: []string{"the removed-zero count of Context.Reduce is the number of trailing zeros of the operand's coefficient after context rounding (result exponent = rounded exponent + count); for a zero operand the count is 0"},
+		Assumptions: []string{"the removed-zero count of Context.Reduce is the number of trailing zeros of the operand's coefficient plus those of the coefficient left by rounding the stripped operand; for a zero operand the count is 0"},
 	})
 }
